@@ -342,10 +342,38 @@ func c17Disruption(c *Check) {
 			fi := p.Info(st.Fn)
 			v := fi.Sym(st.Val)
 			if top == stepLeader && st.Fn != stepLeader && v.K == KConst && v.C != nil && v.C.String() == "false" {
-				okClear = true
+				// reached for every peer other than the node itself: (id != r.id) entails the path condition
+				pf, okP := fi.PathFormula(st.Instr, -1)
+				if !okP {
+					continue
+				}
+				am := map[string]*BAtom{}
+				pf.atoms(am)
+				for _, a := range am {
+					if a.EqL == nil || len(a.EqL.T) != 2 || a.EqL.K != 0 {
+						continue
+					}
+					hasID, hasParam := false, false
+					for _, s := range a.EqL.S {
+						if s.K == KField && s.Fld.Name() == "id" {
+							hasID = true
+						}
+						if s.K == KParam {
+							hasParam = true
+						}
+					}
+					if hasID && hasParam {
+						if ok, _ := bfImplies(bfNot(&BF{Op: 'a', Atom: a}), pf); ok {
+							okClear = true
+						}
+					}
+				}
+				if len(am) == 0 && pf.Op == 'c' && pf.Val {
+					okClear = true
+				}
 			}
 		}
-		c.Result(okClear, "C17.Q3", "CheckQuorum clears RecentActive", fnName(stepLeader), p.Pos(stepLeader.Pos()), "every peer must prove liveness again in the next window", "")
+		c.Result(okClear, "C17.Q3", "CheckQuorum clears RecentActive", fnName(stepLeader), p.Pos(stepLeader.Pos()), "every peer other than the node itself is marked inactive (must prove liveness again in the next window)", "")
 		if quorumActive != nil {
 			qfi := p.Info(quorumActive)
 			jvr := p.Method("quorum", "JointConfig", "VoteResult")
